@@ -271,7 +271,22 @@ func genProgram(c *worker.Ctx) *lintProgram {
 		}
 		return ""
 	}
-	switch c.T.Draw(14) {
+	switch c.T.Draw(16) {
+	case 14:
+		// a module that does not exist, included from subroutine bodies, before and after modules that do
+		p.desc = "include:missing-in-subs"
+		p.modules["m0"] = "set req.http.X-A = \"m0\";\n"
+		p.modules["m1"] = "include \"nope" + ext() + "\";\nset req.http.X-A = \"m1\";\n"
+		add("sub", "sub inc_a {\n  include \"nope"+ext()+"\";\n  include \"m0"+ext()+"\";\n}\n")
+		add("sub", "sub inc_b {\n  include \"m1"+ext()+"\";\n  include \"m0"+ext()+"\";\n  include \"m1"+ext()+"\";\n}\n")
+		add("sub", "sub inc_c {\n  include \"m0"+ext()+"\";\n  include \"nope"+ext()+"\";\n  include \"nope"+ext()+"\";\n}\n")
+	case 15:
+		p.desc = "include:missing-then-same-at-root"
+		p.modules["m0"] = "sub helper_m0 { set req.http.X-A = \"m\"; }\n"
+		add("other", "include \"nope\";\n")
+		add("other", "include \"m0"+ext()+"\";\n")
+		add("sub", "sub inc_a {\n  include \"nope\";\n}\n")
+		add("sub", "sub inc_b {\n  include \"nope\";\n}\n")
 	case 11:
 		// Fastly managed snippets: one that includes itself from a subroutine body
 		p.desc = "include:snippet-self"
